@@ -22,7 +22,9 @@ HDR = {"proto_s": ("X-Forwarded-Proto", "https"), "proto_i": ("X-Forwarded-Proto
        "proto_us": ("X_Forwarded_Proto", "HTTPS-us"), "sn": ("SCRIPT_NAME", "/app"), "sn_h": ("Script-Name", "/app/x"),
        "pi": ("PATH_INFO", "/evil"), "cu": ("X_Custom", "cu"), "ch": ("X-Custom", "ch"), "plain": ("Accept", "pl")}
 PEER = {"listed": ("10.0.0.1", 5555), "unlisted": ("10.9.9.9", 5555), "unix": ""}
-ALLOW = {"none": "", "listed": "10.0.0.1", "star": "*"}
+# the same abstract peers over IPv6 (accept() returns a 4-tuple there)
+PEER6 = {"listed": ("2001:db8::1", 5555, 0, 0), "unlisted": ("2001:db8::9", 5555, 0, 0), "unix": ""}
+ALLOW = {"none": "", "listed": "10.0.0.1,2001:db8::1", "star": "*"}
 
 
 def emit(product):
@@ -78,7 +80,13 @@ def observe(case, rng):
         # the second request arrives later (the keep-alive connection goes back to the poller in between)
         cut = len(pline) + len(b"GET /first HTTP/1.1\r\nHost: h\r\n\r\n")
         segs = [data[:cut], data[cut:]]
-    r = drv.serve(case["wk"], cfg, segs, app, peer=PEER[case["peer"]], worker=w, eof_dispatch=True)
+    peer = (PEER6 if rng.random() < 0.4 else PEER)[case["peer"]]
+    if case["pp"] and case["wk"] in ("async", "gthread") and rng.random() < 0.5:
+        # another connection of the same worker, from a permitted proxy, announced a client address just before:
+        # it must not leak into this connection
+        drv.serve(case["wk"], cfg, [b"PROXY TCP4 1.2.3.4 5.6.7.8 1111 2222\r\nGET /other HTTP/1.1\r\nHost: h\r\n\r\n"], app,
+                  peer=("10.0.0.1", 6001) if case["pa"] != "none" else "", worker=w, eof_dispatch=True)
+    r = drv.serve(case["wk"], cfg, segs, app, peer=peer, worker=w, eof_dispatch=True)
     obs = {"out": "reject", "scheme": "http", "sn": False, "addr": "peer", "merged": []}
     env = None
     for e in environs:
